@@ -72,6 +72,10 @@ pub struct Case {
     pub trailers: Trailers,
     /// inject a body error before chunk `sel` (selector over chunk count + 1), with this code
     pub body_err: Option<(u16, i32)>,
+    /// deliver the stream one byte per DATA frame, every frame immediately ready (a peer that dribbles a
+    /// message in thousands of tiny frames); a frame of this many payload bytes is appended first (0 = off)
+    #[serde(default)]
+    pub dribble: u32,
 }
 
 /// The decoder's codec may report any yield threshold (the setting belongs to the encoder; 0 is legal there).
@@ -130,8 +134,14 @@ pub fn strategy() -> BoxedStrategy<Case> {
                 gen::pend_pattern(4),
                 trailers,
                 proptest::option::weighted(0.2, (any::<u16>(), prop_oneof![Just(1i32), Just(13i32), Just(14i32), Just(2i32), 1i32..=16])),
+                prop_oneof![24 => Just(0u32), 1 => 1030u32..=2600],
             )
-                .prop_map(move |(frames, muts, raw, sizes, body_pend, trailers, body_err)| Case {
+                .prop_map(move |(mut frames, muts, mut raw, sizes, body_pend, trailers, body_err, dribble)| {
+                    if dribble > 0 {
+                        frames.push(FrameSpec { payload: Blob::Rnd(dribble, dribble ^ 0x5bd1_e995), compressed: false });
+                        raw = None;
+                    }
+                    Case {
                     response,
                     enc,
                     prost,
@@ -143,6 +153,8 @@ pub fn strategy() -> BoxedStrategy<Case> {
                     body_pend,
                     trailers,
                     body_err,
+                    dribble,
+                    }
                 })
         })
         .boxed()
@@ -325,7 +337,17 @@ fn trailer_map(t: &Trailers) -> Option<HeaderMap> {
 
 pub fn run(c: &Case, o: &mut Outcome) -> Result<(), Failure> {
     let bytes = build_bytes(c);
-    let chunks = cut(&bytes, &c.sizes, &[]);
+    let chunks = if c.dribble > 0 {
+        // one byte per DATA frame for the first 4000 bytes, the remainder in one piece
+        let k = bytes.len().min(4000);
+        let mut v: Vec<Vec<u8>> = bytes[..k].iter().map(|b| vec![*b]).collect();
+        if k < bytes.len() {
+            v.push(bytes[k..].to_vec());
+        }
+        v
+    } else {
+        cut(&bytes, &c.sizes, &[])
+    };
     // body error injection point
     let err_at: Option<(usize, i32)> = c.body_err.map(|(s, code)| (gen::pick(s, chunks.len() + 1), code));
     let mut steps: Vec<BodyStep> = vec![];
@@ -340,7 +362,7 @@ pub fn run(c: &Case, o: &mut Outcome) -> Result<(), Failure> {
                 break;
             }
         }
-        if !c.body_pend.is_empty() {
+        if !c.body_pend.is_empty() && c.dribble == 0 {
             for _ in 0..c.body_pend[pi % c.body_pend.len()] {
                 steps.push(BodyStep::Pending);
             }
@@ -379,6 +401,7 @@ pub fn run(c: &Case, o: &mut Outcome) -> Result<(), Failure> {
     let (ref_items, ref_stop, uncertain) = reference(&delivered, c.enc, c.prost, &pristine);
     let malformed = !matches!(ref_stop, RefStop::CleanEnd) || uncertain.is_some();
     o.nontrivial = malformed || body_error_injected;
+    o.label_if(c.dribble > 0, "dribbled_one_byte_per_ready_frame");
     o.label_if(c.raw.is_some(), "raw_bytes");
     o.label_if(body_error_injected, "body_error");
     o.label_if(has_trailers, "trailers");
@@ -557,7 +580,7 @@ impl Prop for C07 {
         run(c, o)
     }
     fn rule() -> &'static str {
-        "proptest: valid streams from the independent encoder (0-5 frames, identity or really compressed) mutated by well-formed zstd frame headers declaring absurd content sizes, flag->2..255/0/1, length +-delta / absolute (4 MiB+-1, 2^31, 2^32-1), truncation at any byte, byte corruption, inserted garbage, duplicated frames - or raw random bytes; any chunking (0,1,2-5,<=100,<=9000) and body Pending pattern; decoder in {raw, prost}; direction in {request, response}; trailers in {none, OK, error status, malformed grpc-status, no grpc-status}; body error injected before any chunk. After the first Err/None the stream is polled 6 more times. Oracle: no panic, poll budget respected, body not re-polled after its end, i-th message equals i-th frame of the independent reference parse, at most one Err ever and only None after it, None sticky, definite malformations (bad flag, flag 1 without encoding, over-limit length, undecodable protobuf, truncation with no trailers) must produce an error. Non-trivial: reference parse stops early (malformed) or a body error is injected; distinct = distinct serialised case. The decoder's codec reports yield thresholds 0, 1, 1024 and 32 KiB. Frames behind a compressed frame of unknown decompression are still compared (nothing but the delimited frames may come out); PadCompressed puts 1-100 KiB of well-formed one-byte frames behind the end of a compressed stream inside its frame; every DATA frame is handed over as a two-segment Buf; malformed grpc-status values include 17-20, 100, 1e1, +1."
+        "proptest: valid streams from the independent encoder (0-5 frames, identity or really compressed) mutated by well-formed zstd frame headers declaring absurd content sizes, flag->2..255/0/1, length +-delta / absolute (4 MiB+-1, 2^31, 2^32-1), truncation at any byte, byte corruption, inserted garbage, duplicated frames - or raw random bytes; any chunking (0,1,2-5,<=100,<=9000) and body Pending pattern; decoder in {raw, prost}; direction in {request, response}; trailers in {none, OK, error status, malformed grpc-status, no grpc-status}; body error injected before any chunk. After the first Err/None the stream is polled 6 more times. Oracle: no panic, poll budget respected, body not re-polled after its end, i-th message equals i-th frame of the independent reference parse, at most one Err ever and only None after it, None sticky, definite malformations (bad flag, flag 1 without encoding, over-limit length, undecodable protobuf, truncation with no trailers) must produce an error. Non-trivial: reference parse stops early (malformed) or a body error is injected; distinct = distinct serialised case. The decoder's codec reports yield thresholds 0, 1, 1024 and 32 KiB. Frames behind a compressed frame of unknown decompression are still compared (nothing but the delimited frames may come out); PadCompressed puts 1-100 KiB of well-formed one-byte frames behind the end of a compressed stream inside its frame; every DATA frame is handed over as a two-segment Buf; one case in 25 appends a 1-2.6 KB frame and delivers the stream one byte per immediately ready DATA frame (up to 4000 frames); malformed grpc-status values include 17-20, 100, 1e1, +1."
     }
     fn assumptions() -> Vec<String> {
         vec![
@@ -607,6 +630,7 @@ impl Prop for C07 {
             body_pend,
             trailers,
             body_err,
+            dribble: 0,
         })
     }
     fn fuzz(t: Tier) -> Option<FuzzSpec> {
